@@ -307,13 +307,18 @@ Proof.
     assert (Hrel : rel (P n E) (P' n (rn_E E)) e) by (intros q; apply IH).
     assert (G : forall mxb,
        match bound_val (rn_E E) (rn_b mn), bound_val (rn_E E) (rn_b mxb) with
-       | Some mnv, Some mxv => if bounds_conflict mnv mxv then Raise else rep_spec (P' n (rn_E E)) n (rn_e e) mnv mxv p []
+       | Some mnv, Some mxv => if bounds_conflict mnv mxv
+                               then match rep_spec (P' n (rn_E E)) n (rn_e e) mnv mxv p [] with Match _ _ => Fails | other => other end
+                               else rep_spec (P' n (rn_E E)) n (rn_e e) mnv mxv p []
        | _, _ => Raise end
        = rn_r (match bound_val E mn, bound_val E mxb with
-       | Some mnv, Some mxv => if bounds_conflict mnv mxv then Raise else rep_spec (P n E) n e mnv mxv p []
+       | Some mnv, Some mxv => if bounds_conflict mnv mxv
+                               then match rep_spec (P n E) n e mnv mxv p [] with Match _ _ => Fails | other => other end
+                               else rep_spec (P n E) n e mnv mxv p []
        | _, _ => Raise end)).
     { intros mxb. rewrite !bound_val_rn. destruct (bound_val E mn) as [a|]; auto. destruct (bound_val E mxb) as [b0|]; auto.
-      destruct (bounds_conflict a b0); auto. exact (rep_rn _ _ n e a b0 p [] Hrel). }
+      pose proof (rep_rn _ _ n e a b0 p [] Hrel) as Hr. cbn [map] in Hr. rewrite Hr.
+      destruct (bounds_conflict a b0); auto. destruct (rep_spec (P n E) n e a b0 p []); reflexivity. }
     destruct mx as [|[|m]|y]; [exact (G BNone) | reflexivity | exact (G (BLit (S m))) | exact (G (BVar y))].
   - (* Expect *) rewrite (IH e E p). destruct (P n E e p); cbn [rn_r]; auto.
   - (* ExpectNot *) rewrite (IH e E p). destruct (P n E e p); cbn [rn_r]; auto.
